@@ -121,7 +121,7 @@ impl Scenario for C10 {
     fn runs(&self, tier: Tier) -> u64 {
         match tier {
             Tier::Quick => 60_000,
-            Tier::Thorough => 2_000_000,
+            Tier::Thorough => 6_000_000,
         }
     }
     fn generate(&self, rng: &mut Rng, tier: Tier, _idx: u64) -> C10Plan {
